@@ -45,29 +45,40 @@ RelEig9(n)  == 4 * EpsPca9(n)                    \* C01 TolEig, relative part: 4
 TolEigRel(rel9, ev) == MulDiv(Abs(ev), rel9, One) + 3
 TolEig(n, ev) == TolEigRel(RelEig9(n), ev)
 
-(* ---- C02 criterion-implied bound on the score/loading error of component k ---------------------------- *)
-(* s = spectrum (squared singular values, any common positive scale, each <= 10^9, descending);              *)
-(*   rho_k   = s[k+1]/s[k]                         contraction of the textbook iteration                      *)
-(*   bound_1 = K eps max(rho_1/(1-rho_1), 0.05)                                                              *)
-(*   bound_k = K eps max(rho_k/(1-rho_k), 0.05) + (SUM_{j<k} bound_j sigma_j/sigma_k) / (1-rho_k)            *)
-(* all in 1e-9 units, saturating at Cap.                                                                     *)
+(* ---- C02 criterion-implied bounds on the loading and score error of component k ------------------------ *)
+(* s = spectrum (squared singular values, any common positive scale, each <= 10^9, descending), eps as above.    *)
+(* Power iteration on E'E stopped by the rule |dt|/|t| < eps: with rho_k = s[k+1]/s[k] (the contraction) the     *)
+(* loading is off by at most eps sqrt(rho)/(1-rho) and the score by eps rho/(1-rho) (a theorem for k = 1).       *)
+(* A loading error d_j of an earlier component j tilts the deflated matrix: it re-appears in the loading of       *)
+(* component k unamplified and in its score multiplied by sigma_j/sigma_k.  With the calibrated constant K        *)
+(* (DESIGN C02) and a floor of 0.05 on the iteration factor:                                                     *)
+(*   bp_k = K eps max(sqrt(rho_k)/(1-rho_k), 0.05) + (SUM_{j<k} bp_j) / (1-rho_k)                  loadings       *)
+(*   bt_k = K eps max(rho_k/(1-rho_k), 0.05)       + (SUM_{j<k} bp_j sigma_j/sigma_k) / (1-rho_k)  scores         *)
+(* (DESIGN C02 states one recurrence with the score factor for both; over 4,000 conforming fits that form left    *)
+(* only 6.8x slack for loadings and 8.6x for second scores at small rho, exactly where sqrt(rho) >> rho; the     *)
+(* two-sequence form leaves 30x uniformly with the same K = 30, so K was not touched.)                            *)
+(* All in 1e-9 units, saturating at Cap.                                                                          *)
 RhoMax9 == 722500000                                \* 0.85^2: the property's quantifier on singular-value ratios
 Rho9(s, k) == IF k < Len(s) THEN (IF s[k+1] >= s[k] THEN One ELSE MulDiv(s[k+1], One, s[k])) ELSE 0
-G6(rho9) == Max2(50000, MulDiv(rho9, 1000000, One - rho9))                      \* max(rho/(1-rho), 0.05) in 1e-6 units, rho <= RhoMax
+SqrtRho6(rho9) == MulDiv(CeilSqrt(rho9), 1000000, 31622)                         \* sqrt(rho) in 1e-6 units (rounded up)
+Gt6(rho9) == Max2(50000, MulDiv(rho9, 1000000, One - rho9))                      \* max(rho/(1-rho), 0.05) in 1e-6 units, rho <= RhoMax
+Gp6(rho9) == Max2(50000, MulDiv(SqrtRho6(rho9), One, One - rho9))                \* max(sqrt(rho)/(1-rho), 0.05) in 1e-6 units
 SR3(s, j, k) == IF s[j] \div s[k] >= 2000 THEN 45000 ELSE CeilSqrt(MulDiv(s[j], 1000000, s[k]))   \* sigma_j/sigma_k in 1e-3 units (j < k)
 SatMul3(b, sr3) == IF b >= Cap \div ((sr3 \div 1000) + 1) THEN Cap ELSE MulDiv(b, sr3, 1000)
-RECURSIVE LeakSum(_, _, _, _)
-LeakSum(s, bs, k, j) == IF j = 0 THEN 0 ELSE SatAdd(LeakSum(s, bs, k, j - 1), SatMul3(bs[j], SR3(s, j, k)))
-BoundStep(s, keps9, bs, k) ==
-  LET rho  == Rho9(s, k)
-      base == MulDiv(keps9, G6(rho), 1000000)
-      leak == LeakSum(s, bs, k, k - 1)
-      amp  == IF leak >= 250000000 THEN Cap ELSE MulDiv(leak, One, One - rho)
-  IN SatAdd(Min2(base, Cap), amp)
-(* sequence of bounds for components 1..m (every rho_k, k <= m, must be <= RhoMax9) *)
-RECURSIVE Bounds(_, _, _)
-Bounds(s, keps9, m) == IF m = 0 THEN <<>>
-                       ELSE LET bs == Bounds(s, keps9, m - 1) IN Append(bs, BoundStep(s, keps9, bs, m))
+RECURSIVE LeakP(_, _)
+LeakP(bp, j) == IF j = 0 THEN 0 ELSE SatAdd(LeakP(bp, j - 1), bp[j])
+RECURSIVE LeakT(_, _, _, _)
+LeakT(s, bp, k, j) == IF j = 0 THEN 0 ELSE SatAdd(LeakT(s, bp, k, j - 1), SatMul3(bp[j], SR3(s, j, k)))
+Amp(leak, rho) == IF leak >= 250000000 THEN Cap ELSE MulDiv(leak, One, One - rho)
+StepP(s, keps9, bp, k) == LET rho == Rho9(s, k) IN SatAdd(Min2(MulDiv(keps9, Gp6(rho), 1000000), Cap), Amp(LeakP(bp, k - 1), rho))
+StepT(s, keps9, bp, k) == LET rho == Rho9(s, k) IN SatAdd(Min2(MulDiv(keps9, Gt6(rho), 1000000), Cap), Amp(LeakT(s, bp, k, k - 1), rho))
+(* bounds for components 1..m (every rho_k, k <= m, must be <= RhoMax9): record of two sequences *)
+RECURSIVE BoundsPT(_, _, _)
+BoundsPT(s, keps9, m) == IF m = 0 THEN [p |-> <<>>, t |-> <<>>]
+                         ELSE LET b == BoundsPT(s, keps9, m - 1)
+                              IN [p |-> Append(b.p, StepP(s, keps9, b.p, m)), t |-> Append(b.t, StepT(s, keps9, b.p, m))]
+(* never below floor9 (CPCA: comparisons against an independent oracle are not meaningful below 1e-7) *)
+Floored(b, floor9) == [i \in 1..Len(b) |-> Max2(b[i], floor9)]
 (* number of leading components the property speaks about: up to the first rho_k > 0.7225, spectrum entry still *)
 (* resolved by the 1e-9 quantisation (>= MinS), at most MaxCmp                                                 *)
 RECURSIVE NCmp(_, _, _, _)
